@@ -367,6 +367,12 @@ def agent_spec(key, style):
         # dies (deletes its own compartment from inside a step phase) when x reaches 2
         d['steps'] = {'reaper': GReaper({'key': key, 'at': 2}), 'double': GDouble(), 'succ': GSucc()}
         d['topology'] = dict(topo, reaper={'v': ('v',), 'agents': ('..',)})
+    elif style == 'flow-reaper':
+        # as legacy-reaper, but the steps are in the flow: the reaper is the root, `double` and `succ` depend on it in a chain, so
+        # when it removes the agent the later layers of the SAME phase hold steps that are gone (and depend on one another)
+        d['steps'] = {'reaper': GReaper({'key': key, 'at': 2}), 'double': GDouble(), 'succ': GSucc()}
+        d['flow'] = {'reaper': [], 'double': [('reaper',)], 'succ': [('double',)]}
+        d['topology'] = dict(topo, reaper={'v': ('v',), 'agents': ('..',)})
     elif style == 'flow-divider':
         # the dividing step and `double` are in ONE layer: `double` still has an update in flight when the division is
         # applied; the daughters inherit the mother's processes and steps
@@ -451,7 +457,7 @@ def check_generated(case):
                     continue
                 if style.startswith('flow-divider') and name in agents and agents[name]['v']['x'] >= 3:
                     fails.append('tick %d: agent %s should have divided (x=%r)' % (tick, name, agents[name]['v']['x']))
-                if style == 'legacy-reaper' and name not in agents:
+                if style in ('legacy-reaper', 'flow-reaper') and name not in agents:
                     styles.pop(name)          # it died (checked below: only when its x had reached the threshold)
                     if last_x.get(name, 0) + 1 < 2:
                         fails.append('tick %d: agent %s died before its x reached the threshold' % (tick, name))
@@ -460,7 +466,7 @@ def check_generated(case):
                     fails.append('tick %d: agent %s is missing' % (tick, name))
                     continue
                 last_x[name] = agents[name]['v']['x']
-                if style == 'legacy-reaper' and agents[name]['v']['x'] >= 2:
+                if style in ('legacy-reaper', 'flow-reaper') and agents[name]['v']['x'] >= 2:
                     fails.append('tick %d: agent %s should have removed itself (x=%r)' % (tick, name, agents[name]['v']['x']))
                 v = agents[name]['v']
                 x, y, z = v['x'], v['y'], v['z']
@@ -560,7 +566,7 @@ def main():
         if rec.get('kind') == 'generated':
             fails = check_generated(scn)
         else:
-            fails = check_c05(scn) if a.prop in ('C05', 'C07', 'C10') else check_c04(scn, n_perms)
+            fails = check_c05(scn) if a.prop in ('C05', 'C07', 'C10', 'C09') else check_c04(scn, n_perms)
         L.emit_result({'status': 'reproduced' if fails else 'not-reproduced', 'failed': fails})
         return
     n = {'quick': 120, 'thorough': 3000}[a.tier]
@@ -569,7 +575,7 @@ def main():
     for i in range(n):
         scn = json.loads(json.dumps(gen_dag(rng, a.tier)))
         evaluations += 1
-        fails = check_c05(scn) if a.prop in ('C05', 'C07', 'C10') else check_c04(scn, n_perms)
+        fails = check_c05(scn) if a.prop in ('C05', 'C07', 'C10', 'C09') else check_c04(scn, n_perms)
         if any(scn['deps'].values()):
             distinct.add(json.dumps(scn, sort_keys=True))
         if len(samples) < 2:
@@ -587,6 +593,7 @@ def main():
                {'a0': 'legacy-in-processes', 'script': {'2': [['generate', 'a1', 'flow-layer']]}, 'ticks': 4, 'via_composite': True}]
     gcases += [{'a0': 'legacy-steps', 'script': {'1': [['generate', 'a1', 'legacy-steps']], '2': [['delete', 'a1']], '3': [['generate', 'a1', 'legacy-steps']]}, 'ticks': 6},
                {'a0': 'flow-chain', 'script': {'1': [['delete', 'a0']], '2': [['generate', 'a0', 'legacy-steps']]}, 'ticks': 5}]
+    gcases += [{'a0': 'flow-reaper', 'script': {}, 'ticks': 5}, {'a0': 'flow-chain', 'script': {'1': [['generate', 'a1', 'flow-reaper']]}, 'ticks': 6}]
     gcases += [{'a0': 'flow-divider-nested', 'script': {}, 'ticks': 6}, {'a0': 'flow-chain', 'script': {'1': [['generate', 'a1', 'flow-divider-nested']]}, 'ticks': 6}]
     gcases += [{'a0': 'flow-divider', 'script': {}, 'ticks': 5}, {'a0': 'legacy-steps', 'script': {'1': [['generate', 'a1', 'flow-divider']]}, 'ticks': 6}]
     gcases += [gen_generated(rng) for _ in range(20 if a.tier == 'quick' else 400)]
